@@ -17,6 +17,9 @@ import (
 
 func init() { subcmds["conc"] = concCmd }
 
+// write deadline of Send in the runs with a subscriber that never reads (hook H5)
+const stallDeadline = time.Second
+
 // concCmd: several publishers, several subscribers that come and go (orderly and abruptly),
 // optionally one subscriber that never reads.  Writes what every party observed, with logical
 // time stamps taken from one atomic counter; checks/c19.py decides (after decoding the streams
@@ -68,7 +71,7 @@ func concCmd(args []string) error {
 		return err
 	}
 	if stall {
-		memdb.VerifSetPubSubWriteTimeout(time.Second)
+		memdb.VerifSetPubSubWriteTimeout(stallDeadline)
 	}
 	subs := env.mgr.DBs[0].SubChans
 
@@ -139,7 +142,19 @@ func concCmd(args []string) error {
 				// the connection should have received after its last acknowledged command.
 				cmdFailed := func(what string, err error) {
 					if stall && err == errServerClosed && strings.Contains(c.srv.firstWriteErr(), "i/o timeout") {
-						emit("EV %d DROPPED", id)
+						// ... provided the server had really allowed (about) the whole deadline for the write that failed
+						fresh := false
+						for _, w := range c.srv.writeLog() {
+							if w.err != "" {
+								fresh = w.remaining >= stallDeadline/2
+								break
+							}
+						}
+						if fresh {
+							emit("EV %d DROPPED", id)
+							return
+						}
+						emit("FAIL conn %d %s: dropped by a write whose deadline had (nearly) expired when it was set: the subscriber was not given the write timeout", id, what)
 						return
 					}
 					emit("FAIL conn %d %s: %v (first server-side write error: %q)", id, what, err, c.srv.firstWriteErr())
